@@ -1104,11 +1104,17 @@ type lentry struct {
 	hash string
 }
 
+type pcause struct {
+	cause string
+	it    *item
+}
+
 type prediction struct {
 	reject, accept bool
-	cause          string
+	cause          string // first reason to reject (in list order)
 	it             *item
-	rechecks       int // pending LCA items that a successful check verifies again
+	causes         []pcause // every reason to reject, one per offending item
+	rechecks       int      // pending LCA items that a successful check verifies again
 }
 
 // predict decides whether a list of evidence must be rejected / must be accepted as the
@@ -1148,8 +1154,11 @@ func (s *sim) predict(list []lentry, hiH int64, hiT time.Time, inBlock bool) pre
 			}
 		}
 		seen[e.hash] = true
-		if cause != "" && p.cause == "" {
-			p.cause, p.it = cause, e.it
+		if cause != "" {
+			if p.cause == "" {
+				p.cause, p.it = cause, e.it
+			}
+			p.causes = append(p.causes, pcause{cause, e.it})
 		}
 		if e.it != nil && e.it.kind != "dv" {
 			if s.pending[e.hash] != "" || lcaSeen[e.hash] {
@@ -1161,16 +1170,20 @@ func (s *sim) predict(list []lentry, hiH int64, hiT time.Time, inBlock bool) pre
 	}
 	if p.cause == "" && inBlock && listBytes(evs) > s.evMaxBytes {
 		p.cause = "oversize"
+		p.causes = append(p.causes, pcause{"oversize", nil})
 	}
 	p.reject = p.cause != ""
 	p.accept = p.cause == "" && !gray
 	return p
 }
 
-func (s *sim) acceptedSig(p prediction) (string, string) {
+func (s *sim) acceptedSig(p pcause) (string, string) {
 	d := ""
 	if p.it != nil {
 		d = fmt.Sprintf("%s evidence %s (perturbation %s, height %d)", p.it.kind, hx(p.it.hash), p.it.pert, p.it.evH)
+	}
+	if p.it == nil && p.cause != "oversize" {
+		return "unknown-accepted", "the list contains evidence in a form nobody submitted"
 	}
 	switch p.cause {
 	case "dup":
@@ -1198,20 +1211,50 @@ func (s *sim) acceptedSig(p prediction) (string, string) {
 	return "unknown-accepted", "the list contains evidence in a form nobody submitted"
 }
 
-func (s *sim) rejectedSig(list []lentry) string {
-	sig := "valid-rejected"
-	for _, e := range list {
-		if e.it == nil {
+// rejectedSig names the class of a refusal of valid evidence by the item that was refused.
+func (s *sim) rejectedSig(it *item) string {
+	switch {
+	case it == nil:
+		return "valid-rejected"
+	case it.kind == "amn":
+		return "valid-rejected-lca-amnesia"
+	case (it.kind == "fwd" || it.kind == "lun") && it.confH > s.H():
+		return "valid-rejected-lca-forward"
+	}
+	return "valid-rejected"
+}
+
+// blameRejected finds out which items of a wrongly rejected list the pool refuses: every item
+// is checked on its own (each is valid, fresh and new, so whatever that adds to the pool is
+// allowed) and every refused one is reported under the class of THAT item. It returns the
+// number of light-client-attack items it made the pool verify once more.
+func (s *sim) blameRejected(list []lentry, listErr error, ctx string) int {
+	e := s.env
+	blamed, lca := 0, 0
+	for i, le := range list {
+		ev := le.ev
+		if le.it != nil {
+			ev = le.it.wire
+			if le.it.kind != "dv" {
+				lca++
+			}
+		}
+		err := s.pool.CheckEvidence(types.EvidenceList{ev})
+		if err == nil {
 			continue
 		}
-		switch {
-		case e.it.kind == "amn":
-			return "valid-rejected-lca-amnesia"
-		case (e.it.kind == "fwd" || e.it.kind == "lun") && e.it.confH > s.H():
-			sig = "valid-rejected-lca-forward"
+		blamed++
+		d := "evidence in a form nobody submitted"
+		if le.it != nil {
+			d = fmt.Sprintf("%s evidence %s of height %d", le.it.kind, hx(le.hash), le.it.evH)
 		}
+		e.Count("probe.blamed_item")
+		e.Fail("C11", s.rejectedSig(le.it), "%s rejected a list of %d valid, unexpired, uncommitted, distinct evidence (chain height %d); item #%d, %s, is refused on its own: %s", ctx, len(list), s.H(), i, d, short(err))
 	}
-	return sig
+	if blamed == 0 {
+		e.Fail("C11", "valid-rejected", "%s rejected a list of %d valid, unexpired, uncommitted, distinct evidence although every item is accepted on its own: %s", ctx, len(list), short(listErr))
+	}
+	return lca
 }
 
 // ---------------------------------------------------------------- op generation
@@ -1630,11 +1673,15 @@ func (s *sim) afterCheck(list []lentry, p prediction, err error, ctx string) {
 	e := s.env
 	switch {
 	case err == nil && p.reject:
-		sig, d := s.acceptedSig(p)
-		e.Count("probe.accept_violation." + p.cause)
-		e.Fail("C11", sig, "%s accepted a list of %d evidence that must be rejected: %s", ctx, len(list), d)
+		// one report per offending item, so that a listed known class never covers for another
+		for _, c := range p.causes {
+			sig, d := s.acceptedSig(c)
+			e.Count("probe.accept_violation." + c.cause)
+			e.Fail("C11", sig, "%s accepted a list of %d evidence that must be rejected: %s", ctx, len(list), d)
+		}
 	case err != nil && p.accept:
-		e.Fail("C11", s.rejectedSig(list), "%s rejected a list of %d valid, unexpired, uncommitted, distinct evidence: %s", ctx, len(list), short(err))
+		s.noteRecheck(p.rechecks, ctx)
+		p.rechecks = s.blameRejected(list, err, ctx)
 	case err == nil:
 		e.Count("probe.list_accepted")
 	default:
